@@ -26,18 +26,13 @@ impl CharPred {
             CharPred::AnyNoNl => c != '\n',
             CharPred::Set(cs, neg) => cs.contains(&c) != *neg,
             CharPred::Word => c.is_alphanumeric() || c == '_',
-            CharPred::Digit => c.is_numeric() && c.is_ascii_digit() || is_unicode_nd(c),
+            CharPred::Digit => c.is_ascii_digit(),
             CharPred::Opaque(re) => {
                 let mut b = [0u8; 4];
                 re.is_match(c.encode_utf8(&mut b))
             }
         }
     }
-}
-
-fn is_unicode_nd(c: char) -> bool {
-    // the harness alphabets contain no non-ASCII digits; keep ASCII semantics
-    c.is_ascii_digit()
 }
 
 #[derive(Clone, Debug)]
@@ -52,8 +47,10 @@ pub enum Ir {
     Group(usize, Id),
     Atomic(Id),
     LookAhead { neg: bool, body: Id },
-    /// per top-level alternative: (body, fixed length in characters)
-    LookBehind { neg: bool, alts: Vec<(Id, usize)> },
+    /// per top-level alternative: (body, fixed length in characters; None = variable length:
+    /// the true look-behind semantics "some start position matches up to exactly here", used
+    /// only to *observe* lengths of patterns the engine must reject)
+    LookBehind { neg: bool, alts: Vec<(Id, Option<usize>)> },
     Repeat { child: Id, lo: u32, hi: Option<u32>, greedy: bool },
     Concat(Vec<Id>),
     Alt(Vec<Id>),
@@ -69,6 +66,7 @@ pub struct Prog {
     pub nodes: Vec<Ir>,
     pub root: Id,
     pub n_groups: usize,
+    pub lenient: bool,
 }
 
 #[derive(Debug, Clone, PartialEq, Eq)]
@@ -138,7 +136,7 @@ impl Prog {
     }
 
     /// Build the look-behind node for `body`: one entry per top-level alternative.
-    pub fn make_lookbehind(&mut self, neg: bool, body: Id) -> Result<Id, BuildError> {
+    pub fn make_lookbehind(&mut self, neg: bool, body: Id, lenient: bool) -> Result<Id, BuildError> {
         let alts: Vec<Id> = match &self.nodes[body] {
             Ir::Alt(v) => v.clone(),
             _ => vec![body],
@@ -146,7 +144,8 @@ impl Prog {
         let mut out = Vec::new();
         for a in alts {
             match self.fixed_len(a) {
-                Some(l) => out.push((a, l)),
+                Some(l) => out.push((a, Some(l))),
+                None if lenient => out.push((a, None)),
                 None => return Err(BuildError::LookBehindNotConst),
             }
         }
@@ -156,7 +155,14 @@ impl Prog {
 
 /// Front-end from the harness AST.
 pub fn from_ast(n: &Node) -> Result<Prog, BuildError> {
+    from_ast_opt(n, false)
+}
+
+/// `lenient`: variable-length look-behind alternatives get the true look-behind semantics
+/// instead of an error.
+pub fn from_ast_opt(n: &Node, lenient: bool) -> Result<Prog, BuildError> {
     let mut p = Prog::default();
+    p.lenient = lenient;
     let mut next_group = 0usize;
     let root = build(n, &mut p, &mut next_group)?;
     p.root = root;
@@ -204,8 +210,8 @@ fn build(n: &Node, p: &mut Prog, ng: &mut usize) -> Result<Id, BuildError> {
             match k {
                 LookKind::Ahead => p.add(Ir::LookAhead { neg: false, body: c }),
                 LookKind::AheadNeg => p.add(Ir::LookAhead { neg: true, body: c }),
-                LookKind::Behind => p.make_lookbehind(false, c)?,
-                LookKind::BehindNeg => p.make_lookbehind(true, c)?,
+                LookKind::Behind => p.make_lookbehind(false, c, p.lenient)?,
+                LookKind::BehindNeg => p.make_lookbehind(true, c, p.lenient)?,
             }
         }
         Node::Repeat(c, lo, hi, m) => {
